@@ -226,20 +226,41 @@ pub const ZSTD_COMPRESSION_LEVEL: i32 = 3;
 /// Represents the byte offset in a segment file up to which all data has been safely
 /// flushed to disk and can be read concurrently.
 #[derive(Clone, Debug)]
-pub struct FlushedOffset(Arc<AtomicU64>);
+pub struct FlushedOffset(Arc<FlushedInner>);
+
+#[derive(Debug)]
+struct FlushedInner {
+    offset: AtomicU64,
+    /// Incremented whenever bytes *below* the flushed offset are rewritten (truncation,
+    /// header replacement), so readers can drop what they cached from before.
+    epoch: AtomicU64,
+}
 
 impl FlushedOffset {
     pub(crate) fn new(offset: u64) -> Self {
-        FlushedOffset(Arc::new(AtomicU64::new(offset)))
+        FlushedOffset(Arc::new(FlushedInner {
+            offset: AtomicU64::new(offset),
+            epoch: AtomicU64::new(0),
+        }))
     }
 
     pub(crate) fn set(&self, offset: u64) {
-        self.0.store(offset, Ordering::Release)
+        self.0.offset.store(offset, Ordering::Release)
     }
 
     /// Returns the current flushed offset value.
     pub fn load(&self) -> u64 {
-        self.0.load(Ordering::Acquire)
+        self.0.offset.load(Ordering::Acquire)
+    }
+
+    /// Marks previously readable bytes as rewritten. Call before publishing a new offset.
+    pub(crate) fn invalidate(&self) {
+        self.0.epoch.fetch_add(1, Ordering::AcqRel);
+    }
+
+    /// Load after [`FlushedOffset::load`].
+    pub(crate) fn epoch(&self) -> u64 {
+        self.0.epoch.load(Ordering::Acquire)
     }
 }
 
